@@ -185,23 +185,31 @@ Lemma seeds_offered_all (c : config) :
   (length (i_inds (cfg_initial c)) <= i_max (cfg_initial c))%nat -> seeds_offered c = i_inds (cfg_initial c).
 Proof. intros H. unfold seeds_offered. apply firstn_all2. exact H. Qed.
 
-Lemma created_slots_length (c : config) clock n : forall i idx, (length (created_slots c clock i n idx) <= n)%nat.
-Proof. induction n as [|n IH]; intros i idx; cbn; [lia|]. destruct (stop_at c clock i); cbn; [lia|]. specialize (IH (S i) (S idx)). lia. Qed.
+Variable pre : Z -> context ind -> context ind.
+
+Lemma created_slots_length (c : config) clock n : forall i idx, (length (created_slots pre c clock i n idx) <= n)%nat.
+Proof.
+  induction n as [|n IH]; intros i idx; cbn [created_slots length]; [lia|].
+  destruct (has_solution pre c i && stop_at c clock i); cbn [length]; [lia|]. specialize (IH (S i) (S idx)). lia.
+Qed.
 
 Lemma created_slots_valid (c : config) clock n : forall i idx k,
-  In (Some k) (created_slots c clock i n idx) -> (k < length (i_ops (cfg_initial c)))%nat.
+  In (Some k) (created_slots pre c clock i n idx) -> (k < length (i_ops (cfg_initial c)))%nat.
 Proof.
   induction n as [|n IH]; intros i idx k H; cbn [created_slots] in H; [destruct H|].
-  destruct (stop_at c clock i); [destruct H|]. destruct H as [H|H]; [|eapply IH; exact H].
+  destruct (has_solution pre c i && stop_at c clock i); [destruct H|]. destruct H as [H|H]; [|eapply IH; exact H].
   destruct (idx <? length (i_ops (cfg_initial c)))%nat eqn:E; [|discriminate]. injection H as <-. apply Nat.ltb_lt. exact E.
 Qed.
 
 Lemma created_slots_full (c : config) clock n :
-  (forall i, stop_at c clock i = false) -> forall i idx, length (created_slots c clock i n idx) = n.
-Proof. intros H. induction n as [|n IH]; intros i idx; cbn; [reflexivity|]. rewrite H. cbn. rewrite IH. reflexivity. Qed.
+  (forall i, stop_at c clock i = false) -> forall i idx, length (created_slots pre c clock i n idx) = n.
+Proof.
+  intros H. induction n as [|n IH]; intros i idx; cbn [created_slots length]; [reflexivity|].
+  rewrite H, andb_false_r. cbn [length]. rewrite IH. reflexivity.
+Qed.
 
 (* the initial population never exceeds initial.max_size *)
-Lemma init_offered_length (c : config) clock created : (length (init_offered c clock created) <= i_max (cfg_initial c))%nat.
+Lemma init_offered_length (c : config) clock created : (length (init_offered pre c clock created) <= i_max (cfg_initial c))%nat.
 Proof.
   unfold init_offered, init_slots. rewrite app_length, firstn_length.
   pose proof (seeds_offered_length c).
@@ -219,25 +227,85 @@ Qed.
 Lemma init_slots_full (c : config) clock :
   has_other_criteria (cfg_termination c) = false -> maxgen_terminated0 (cfg_termination c) = false ->
   0 <= i_quota (cfg_initial c) ->
-  length (init_slots c clock) = (i_max (cfg_initial c) - length (seeds_offered c))%nat.
+  length (init_slots pre c clock) = (i_max (cfg_initial c) - length (seeds_offered c))%nat.
 Proof. intros H1 H2 H3. unfold init_slots. apply created_slots_full. intros i. apply stop_at_maxgen_only; assumption. Qed.
 
-(* a generation limit of 0 (or a negative quota) creates nothing *)
+(* a generation limit of 0 creates nothing when the population already holds a solution (a seed, or it was non-empty before) ... *)
 Lemma init_slots_none (c : config) clock :
-  maxgen_terminated0 (cfg_termination c) = true -> init_slots c clock = [].
+  maxgen_terminated0 (cfg_termination c) = true -> has_solution pre c 0 = true -> init_slots pre c clock = [].
 Proof.
-  intros H. unfold init_slots. destruct (i_max (cfg_initial c) - length (seeds_offered c))%nat; [reflexivity|].
-  cbn. unfold stop_at. rewrite H. reflexivity.
+  intros H HS. unfold init_slots. destruct (i_max (cfg_initial c) - length (seeds_offered c))%nat; [reflexivity|].
+  cbn [created_slots]. rewrite HS. unfold stop_at. rewrite H. reflexivity.
+Qed.
+
+(* ... and exactly one individual when the population is empty (/repo 2c5dd99: "build at least one solution") *)
+Lemma has_solution_succ (c : config) i : has_solution pre c (S i) = true.
+Proof. unfold has_solution. replace (0 <? length (seeds_offered c) + S i)%nat with true; [apply orb_true_r|]. symmetry. apply Nat.ltb_lt. lia. Qed.
+
+Lemma init_slots_one (c : config) clock :
+  maxgen_terminated0 (cfg_termination c) = true -> has_solution pre c 0 = false -> (0 < i_max (cfg_initial c))%nat ->
+  length (init_slots pre c clock) = 1%nat.
+Proof.
+  intros H HS M. unfold init_slots.
+  assert (K : length (seeds_offered c) = 0%nat).
+  { unfold has_solution in HS. apply orb_false_iff in HS. destruct HS as [_ HS]. apply Nat.ltb_ge in HS. lia. }
+  rewrite K. destruct (i_max (cfg_initial c) - 0)%nat as [|n] eqn:E; [lia|].
+  cbn [created_slots]. rewrite HS. cbn [andb length]. f_equal.
+  destruct n; [reflexivity|]. cbn [created_slots]. rewrite has_solution_succ. unfold stop_at. rewrite H. reflexivity.
+Qed.
+
+(* whatever the criteria, the quota and the clock: an empty population gets at least one operator-built individual (max_size > 0) *)
+Lemma init_slots_nonempty (c : config) clock :
+  has_solution pre c 0 = false -> (0 < i_max (cfg_initial c))%nat -> init_slots pre c clock <> [].
+Proof.
+  intros HS M. unfold init_slots.
+  assert (K : length (seeds_offered c) = 0%nat).
+  { unfold has_solution in HS. apply orb_false_iff in HS. destruct HS as [_ HS]. apply Nat.ltb_ge in HS. lia. }
+  rewrite K. destruct (i_max (cfg_initial c) - 0)%nat as [|n] eqn:E; [lia|]. cbn [created_slots]. rewrite HS. cbn [andb]. discriminate.
 Qed.
 
 (* the population sees the seeds before anything else *)
 Lemma evolve_ops_seeds_first (c : config) clock created gens :
-  exists rest, evolve_ops c clock created gens = map OAdd (seeds_offered c) ++ rest.
+  exists rest, evolve_ops pre c clock created gens = map OAdd (seeds_offered c) ++ rest.
 Proof.
   unfold evolve_ops, solve_ops, init_offered. rewrite map_app, <- app_assoc. eexists. reflexivity.
 Qed.
 
 End B.
+
+(* ================= has_solution ================= *)
+Section HasSolution.
+Context {ind : Type}.
+Variable cmp : ind -> ind -> comparison.
+Variable dedup : ind -> ind -> bool.
+Hypothesis TP : total_preorder cmp.
+Variable pre : Z -> context ind -> context ind.
+
+(* `has_solution` (a count) is what the code tests (`ranked().next().is_some()`): after the seeds and i created individuals were offered
+   to the freshly constructed population of the context, the population is non-empty exactly when has_solution c i *)
+Lemma offered_map_add (l : list ind) : offered (map OAdd l) = l.
+Proof. induction l as [|x l IH]; cbn; [reflexivity|]. rewrite IH. reflexivity. Qed.
+
+Lemma has_solution_faithful (c : config ind) (xs : list ind) (p : pop ind) :
+  start_state (snd (pre_process pre c)) ->
+  run cmp dedup (map OAdd (seeds_offered c ++ xs)) (snd (pre_process pre c)) = Some p ->
+  (has_solution pre c (length xs) = true <-> ranked p <> []).
+Proof.
+  intros ST R. pose proof (nonempty_iff_offered cmp dedup TP _ ST _ _ R) as N.
+  rewrite offered_map_add in N.
+  unfold size in N. unfold has_solution. rewrite orb_true_iff, negb_true_iff, Nat.ltb_lt.
+  split.
+  - intros H E. assert (L : ~ (0 < length (ranked p))%nat) by (rewrite E; cbn; lia). apply L, N.
+    destruct H as [H|H].
+    + destruct (ranked (snd (pre_process pre c))); [discriminate|]. discriminate.
+    + intros E2. apply app_eq_nil in E2. destruct E2 as [_ E2]. apply (f_equal (@length ind)) in E2. rewrite app_length in E2. cbn in E2. lia.
+  - intros H. assert (L : (0 < length (ranked p))%nat) by (destruct (ranked p); [congruence|cbn; lia]).
+    apply N in L. destruct (ranked (snd (pre_process pre c))) as [|a l]; [right|left; reflexivity].
+    cbn [app] in L. destruct (seeds_offered c ++ xs) eqn:E; [congruence|].
+    apply (f_equal (@length ind)) in E. rewrite app_length in E. cbn in E. lia.
+Qed.
+
+End HasSolution.
 
 (* ================= the run ================= *)
 Section Run.
@@ -268,13 +336,13 @@ Qed.
 Lemma evolve_result_best (c : config ind) clock created gens r :
   start_state (snd (cfg_context c)) ->
   evolve cmp dedup pre post c clock created gens = OResult r ->
-  forall x, In x (init_offered c clock created) \/ (exists g, In g gens /\ In x (gen_offspring g)) ->
+  forall x, In x (init_offered pre c clock created) \/ (exists g, In g gens /\ In x (gen_offspring g)) ->
   exists b, hd_error r = Some b /\ cmp b x <> Gt.
 Proof.
   intros ST. unfold evolve. destruct (cfg_strategy c); [discriminate|].
-  destruct (run cmp dedup (evolve_ops c clock created gens) (snd (pre_process pre c))) as [p|] eqn:R; [|discriminate].
+  destruct (run cmp dedup (evolve_ops pre c clock created gens) (snd (pre_process pre c))) as [p|] eqn:R; [|discriminate].
   intros [= <-] x Hx.
-  assert (SV : solve cmp dedup (snd (pre_process pre c)) (init_offered c clock created) gens = Some (hd_error (ranked p))).
+  assert (SV : solve cmp dedup (snd (pre_process pre c)) (init_offered pre c clock created) gens = Some (hd_error (ranked p))).
   { unfold solve. unfold evolve_ops in R. rewrite R. reflexivity. }
   destruct (solve_result_best cmp dedup TP _ (pre_process_start c ST) _ _ _ SV x) as (b & Hb & Hle).
   { destruct Hx as [Hx|Hx]; [right; left; exact Hx|right; right; exact Hx]. }
@@ -326,7 +394,7 @@ Lemma builder_seeds_offered_first (calls pre_calls post_calls : list (setter ind
   (forall s, In s post_calls -> is_init_solutions s = false) ->
   build (apply_all calls default_builder) = inl c ->
   seeds_offered c = firstn (i_max (b_initial (apply_all calls default_builder))) Sd /\
-  forall clock created gens, exists rest, evolve_ops c clock created gens = map OAdd (seeds_offered c) ++ rest.
+  forall clock created gens, exists rest, evolve_ops pre c clock created gens = map OAdd (seeds_offered c) ++ rest.
 Proof.
   intros -> NO B. destruct (build_fields _ _ B) as (FI & _ & _). split.
   - unfold seeds_offered. rewrite FI, seeds_last by assumption. reflexivity.
@@ -358,7 +426,7 @@ Lemma evolve_no_panic (pre : Z -> context ind -> context ind) (post : Z -> ind -
   evolve cmp dedup pre post c clock created gens <> OPanic.
 Proof.
   intros ST PF. unfold evolve. destruct (cfg_strategy c); [discriminate|].
-  destruct (run cmp dedup (evolve_ops c clock created gens) (snd (pre_process pre c))) eqn:R; [discriminate|].
+  destruct (run cmp dedup (evolve_ops pre c clock created gens) (snd (pre_process pre c))) eqn:R; [discriminate|].
   exfalso. eapply start_state_no_panic; eauto.
 Qed.
 
